@@ -12,8 +12,13 @@ S=$PREFIX$P/_benign
 [ -f "$S/$X.diff" ] || { echo "no $S/$X.diff"; exit 2; }
 export CARGO_NET_OFFLINE=true
 if [ ! -d /tmp/benrepo2 ]; then git -C /repo worktree add --detach /tmp/benrepo2 HEAD -q || exit 2; cp /repo/Cargo.lock /tmp/benrepo2/; fi
-BASE=$(git -C $PREFIX$P rev-parse HEAD)
+# on the current HEAD of /repo when the patch applies there (so that a defect repaired since the change
+# was written does not raise the alarm), otherwise on the commit it was written against
+BASE=$(git -C /repo rev-parse HEAD)
 git -C /tmp/benrepo2 checkout -q -- . ; git -C /tmp/benrepo2 checkout -q --detach "$BASE"
+if ! git -C /tmp/benrepo2 apply --check "$S/$X.diff" 2>/dev/null; then
+  BASE=$(git -C $PREFIX$P rev-parse HEAD); git -C /tmp/benrepo2 checkout -q --detach "$BASE"
+fi
 mkdir -p /tmp/benharness2 /tmp/benroot2
 rsync -a --delete --exclude target /verif/harness/ /tmp/benharness2/
 sed -i 's#/repo/rtmp#/tmp/benrepo2/rtmp#; s#/repo/amf0#/tmp/benrepo2/amf0#' /tmp/benharness2/Cargo.toml
